@@ -2114,3 +2114,95 @@ theorem translate_print (cfg : Cfg) (ctx : Ctx) (h : StrOK cfg ctx) (reg : Reg) 
           exact varPassTok_wfs cfg hs ctx h.text h.filt t3 hw3' out w hv
 
 end Operon.Tmpl
+
+namespace Operon.Tmpl
+open Operon.Ribosome
+
+/-! ### decidable checkers for the hypotheses (used by the non-vacuity examples and by the driver) -/
+
+def wordNameb (cfg : Cfg) (n : Str) : Bool := !n.isEmpty && n.all cfg.isWord
+
+theorem WordName_of_bool {cfg : Cfg} {n : Str} (h : wordNameb cfg n = true) : WordName cfg n := by
+  simp only [wordNameb, Bool.and_eq_true, Bool.not_eq_true', List.all_eq_true] at h
+  exact ⟨by intro e; rw [e] at h; simp at h, h.2⟩
+
+def spaceRunb (cfg : Cfg) (ws : Str) : Bool := !ws.isEmpty && ws.all cfg.isSpace
+
+theorem SpaceRun_of_bool {cfg : Cfg} {ws : Str} (h : spaceRunb cfg ws = true) : SpaceRun cfg ws := by
+  simp only [spaceRunb, Bool.and_eq_true, Bool.not_eq_true', List.all_eq_true] at h
+  exact ⟨by intro e; rw [e] at h; simp at h, h.2⟩
+
+def noRBb (s : Str) : Bool := s.all (· != 125)
+
+def Tok.wfsb (cfg : Cfg) : Tok → Bool
+  | .text s => noLBb s
+  | .val s => noLBb s
+  | .var n => wordNameb cfg n
+  | .opt n => wordNameb cfg n
+  | .inc n => wordNameb cfg n
+  | .pipe n a => wordNameb cfg n && noLBb a && noRBb a && !a.isEmpty
+  | .ifO ws n => spaceRunb cfg ws && wordNameb cfg n
+  | .eachO ws n => spaceRunb cfg ws && wordNameb cfg n
+  | _ => true
+
+theorem wfs_of_bool {cfg : Cfg} {t : Tok} (h : t.wfsb cfg = true) : t.wfs cfg := by
+  cases t with
+  | text s => exact NoLB_of_bool h
+  | val s => exact NoLB_of_bool h
+  | var n => exact WordName_of_bool h
+  | opt n => exact WordName_of_bool h
+  | inc n => exact WordName_of_bool h
+  | pipe n a =>
+    simp only [Tok.wfsb, Bool.and_eq_true, Bool.not_eq_true'] at h
+    refine ⟨WordName_of_bool h.1.1.1, NoLB_of_bool h.1.1.2, ?_, ?_⟩
+    · intro hm
+      have := List.all_eq_true.mp h.1.2 125 hm
+      simp at this
+    · intro e; rw [e] at h; simp at h
+  | ifO ws n =>
+    simp only [Tok.wfsb, Bool.and_eq_true] at h
+    exact ⟨SpaceRun_of_bool h.1, WordName_of_bool h.2⟩
+  | eachO ws n =>
+    simp only [Tok.wfsb, Bool.and_eq_true] at h
+    exact ⟨SpaceRun_of_bool h.1, WordName_of_bool h.2⟩
+  | dot => trivial
+  | els => trivial
+  | ifC => trivial
+  | eachC => trivial
+
+theorem wfs_all_of_bool {cfg : Cfg} {ts : List Tok} (h : ts.all (Tok.wfsb cfg) = true) : ∀ t ∈ ts, t.wfs cfg :=
+  fun t ht => wfs_of_bool (List.all_eq_true.mp h t ht)
+
+def itemsOKb (cfg : Cfg) (ctx : Ctx) : Bool :=
+  ctx.all (fun p => (p.2.items.getD []).all (fun it =>
+    noLBb it.text && it.fields.all (fun f => (wordNameb cfg f.1 || f.1 == kDot) && noLBb f.2)))
+
+theorem CtxItemsOK_of_bool {cfg : Cfg} {ctx : Ctx} (h : itemsOKb cfg ctx = true) : CtxItemsOK cfg ctx := by
+  intro n v its hl hi it hit
+  obtain ⟨k, hk⟩ := lookup_mem n ctx v hl
+  have h1 := List.all_eq_true.mp h (k, v) hk
+  simp only [hi, Option.getD] at h1
+  have h2 := List.all_eq_true.mp h1 it hit
+  simp only [Bool.and_eq_true] at h2
+  refine ⟨NoLB_of_bool h2.1, ?_⟩
+  intro p hp
+  have h3 := List.all_eq_true.mp h2.2 p hp
+  simp only [Bool.and_eq_true, Bool.or_eq_true, beq_iff_eq] at h3
+  refine ⟨?_, NoLB_of_bool h3.2⟩
+  rcases h3.1 with h4 | h4
+  · exact Or.inl (WordName_of_bool h4)
+  · exact Or.inr h4
+
+/-- ASCII `\w` / `\s` (what CPython's classes are on ASCII) are sane -/
+theorem ascii_disj (c : Nat) (h : asciiWord c = true) : asciiSpace c = false := by
+  simp only [asciiWord, asciiSpace, Bool.or_eq_true, Bool.and_eq_true, decide_eq_true_eq, beq_iff_eq,
+    Bool.or_eq_false_iff, Bool.and_eq_false_iff, decide_eq_false_iff_not] at *
+  omega
+
+theorem StrOK.toBF {cfg : Cfg} {ctx : Ctx} (h : StrOK cfg ctx) : BF cfg ctx where
+  text := h.text
+  items := fun n v its hl hi it hit => ⟨(h.items n v its hl hi it hit).1, fun p hp => ((h.items n v its hl hi it hit).2 p hp).2⟩
+  filt := h.filt
+  marker := h.marker
+
+end Operon.Tmpl
